@@ -3,7 +3,8 @@
    and no trailing zero; eqp p A B = congruent modulo p coefficient by coefficient (ProofsAlg.eqp_coeff / coeff_eqp);
    prodl = product of a list; `s` is the stream of generator outputs the code consumes (any stream). *)
 From Coq Require Import ZArith List Znumtheory.
-From C09 Require Import Model ProofsAlg ProofsDiv ProofsSplit ProofsIrr ProofsCZ ProofsReq ProofsSweepIrr ProofsSweepSqr ProofsSweepOrd.
+From C09 Require Import Model Model2 ProofsAlg ProofsDiv ProofsSplit ProofsIrr ProofsCZ ProofsReq ProofsSweepIrr ProofsSweepSqr ProofsSweepOrd
+  ProofsPow ProofsOrd ProofsRep.
 Import ListNotations.
 Local Open Scope Z_scope.
 
@@ -130,3 +131,68 @@ Print Assumptions C09_sqrfree_all_refuted.
 Theorem C09_order_and_primitivity_partial : Order_bounded.
 Proof. exact order_bounded. Qed.
 Print Assumptions C09_order_and_primitivity_partial.
+
+(* ---------------------------------------------------------------- phase 3 ---------------------------------------------------------------- *)
+(* the remainder of Poly1Dom::divmod is THE remainder: unique among the canonical R of smaller degree with A = B Q + R *)
+Theorem C09_remainder_unique : Pmod_unique_stmt.
+Proof. exact pmod_unique_thm. Qed.
+Print Assumptions C09_remainder_unique.
+
+(* Poly1Dom::powmod (square-and-multiply over the bits of the exponent, any size): for EVERY exponent n >= 0, base P and modulus U
+   of degree >= 1, P^n = U q + powmod(P,n,U) modulo p with powmod(P,n,U) canonical of degree < deg U ...  *)
+Theorem C09_powmod_is_power : Ppowmod_stmt.
+Proof. exact ppowmod_thm. Qed.
+Print Assumptions C09_powmod_is_power.
+(* ... i.e. it IS the remainder of the n-th power; exponents add and multiply as they must *)
+Theorem C09_powmod_is_remainder_of_power : Ppowmod_remainder_stmt.
+Proof. exact ppowmod_remainder_thm. Qed.
+Print Assumptions C09_powmod_is_remainder_of_power.
+Theorem C09_powmod_exponents_add : Ppowmod_add_stmt.
+Proof. exact ppowmod_add_thm. Qed.
+Print Assumptions C09_powmod_exponents_add.
+Theorem C09_powmod_exponents_multiply : Ppowmod_mul_stmt.
+Proof. exact ppowmod_mul_thm. Qed.
+Print Assumptions C09_powmod_exponents_multiply.
+Example C09_powmod_hypotheses_satisfiable : prime 5 /\ canon 5 [2; 1] /\ canon 5 [1; 0; 1] /\ (2 <= length [1; 0; 1])%nat /\ 0 <= 3 /\
+  ppowmod 5 [2; 1] 3 [1; 0; 1] = [2; 1].
+Proof. exact ppowmod_example. Qed.
+
+(* the trial division the model uses for IntFactorDom::set returns exactly the prime divisors, for every n >= 1 *)
+Theorem C09_prime_factors_exact : Prime_factors_stmt.
+Proof. exact prime_factors_thm. Qed.
+Print Assumptions C09_prime_factors_exact.
+
+(* is_prim_root, every prime p, modulus and element: true <-> A' = A mod F is prime to F and A'^(qp/l) <> 1 for every prime l | qp,
+   qp = MOD^deg F - 1 (no hypothesis) *)
+Theorem C09_is_prim_root_tests : Is_prim_root_tests_stmt.
+Proof. exact is_prim_root_tests_thm. Qed.
+Print Assumptions C09_is_prim_root_tests.
+(* with the one finite-field structure fact as hypothesis (A'^qp = 1: Lagrange in the group of units of F_p[X]/(F), F irreducible,
+   MOD = p):  is_prim_root <-> no exponent 0 < m < qp has A'^m = 1, i.e. the multiplicative order of A' is exactly qp = q^n - 1.
+   Replaces the sweep C09_order_and_primitivity_partial by an argument for every size; the sweep is kept for the structure fact. *)
+Theorem C09_prim_root_iff_order_is_group_order : Prim_root_order_stmt.
+Proof. exact prim_root_order_thm. Qed.
+Print Assumptions C09_prim_root_iff_order_is_group_order.
+(* same hypothesis: `order` returns the least positive exponent r with A'^r = 1, and r divides qp *)
+Theorem C09_order_is_least_exponent : Order_stmt.
+Proof. exact order_thm. Qed.
+Print Assumptions C09_order_is_least_exponent.
+Example C09_order_hypotheses_satisfiable : prime 2 /\ canon 2 [0; 1] /\ canon 2 [1; 1; 1] /\ (2 <= length [1; 1; 1])%nat /\
+  deg (pgcd 2 (pmod 2 [0; 1] [1; 1; 1]) [1; 1; 1]) = 0 /\ 1 <= 2 ^ deg [1; 1; 1] - 1 /\
+  ppowmod 2 (pmod 2 [0; 1] [1; 1; 1]) (2 ^ deg [1; 1; 1] - 1) [1; 1; 1] = pone /\
+  order 2 [0; 1] [1; 1; 1] 2 = 3 /\ is_prim_root 2 [0; 1] [1; 1; 1] 2 = true.
+Proof. exact order_example. Qed.
+
+(* REPAIRED square-free decomposition (Model2.sqrfree_rep = frag/C09.fix-6.diff: gcd(W,C) recurrence + p-th root of the p-th power left
+   over; tied to the code by the correspondence run whenever /repo's sqrfree has the p-th-root branch).  Bounded, complete kernel sweep
+   INCLUDING characteristic <= degree: multiplies back with the multiplicities up to a constant, parts square-free and pairwise coprime,
+   EVERY polynomial of degree <= d over GF(p), (p,d) in sqrfree_rep_bounds = [(2,8); (3,6); (5,5); (7,3); (11,2)] *)
+Theorem C09_sqrfree_repaired_multiplies_back_partial : Sqrfree_rep_bounded.
+Proof. exact sqrfree_rep_bounded. Qed.
+Print Assumptions C09_sqrfree_repaired_multiplies_back_partial.
+(* CZfactor over the repaired decomposition: multiplicity bookkeeping for every input and every stream *)
+Theorem C09_czfactor_repaired_multiplicities : Czfactor_rep_stmt.
+Proof. exact czfactor_rep_thm. Qed.
+Print Assumptions C09_czfactor_repaired_multiplicities.
+Example C09_sqrfree_repaired_X2_over_GF2 : sqrfree_rep 2 4 3 [0; 0; 1] = (2, [[1]; [0; 1]]).
+Proof. exact sqrfree_rep_X2. Qed.
